@@ -11,6 +11,8 @@ namespace Edp
 inductive DErr where
   | err
   | trailing (n : Nat)
+  /-- a Rust panic site was reached (slice index out of range) -/
+  | panic
   deriving Repr, BEq, DecidableEq
 
 structure Ext where
@@ -33,6 +35,10 @@ def MAX_LIST_SIZE : Nat := 10000000
 def MAX_TUPLE_SIZE : Nat := 10000000
 def MAX_MAP_SIZE : Nat := 1000000
 def MAX_BINARY_SIZE : Nat := 100000000
+def MAX_NESTING_DEPTH : Nat := 256
+
+/-- `bounded_capacity`: what is reserved for `count` announced elements -/
+def boundedCapacity (count : Nat) (remaining : Bytes) : Nat := min count remaining.length
 
 /-- `BTreeMap::insert` under the term order: an equal key keeps the stored key and takes the new value -/
 def mapInsert : List (Term × Term) → Term → Term → List (Term × Term)
@@ -65,6 +71,16 @@ def decAtomBody (lenBytes : Nat) (bs : Bytes) : DRes :=
     | .error e => .error e
     | .ok (name, r') => if validUtf8 name then .ok (.atom name, r') else .error .err
 
+/-- ATOM_EXT / SMALL_ATOM_EXT: `len` Latin-1 bytes, one character each -/
+def decLatin1Body (lenBytes : Nat) (bs : Bytes) : DRes :=
+  match rdU lenBytes bs with
+  | .error e => .error e
+  | .ok (len, r) =>
+    if len > MAX_ATOM_SIZE then .error .err else
+    match takeE len r with
+    | .error e => .error e
+    | .ok (name, r') => .ok (.atom (latin1ToUtf8 name), r')
+
 def decBig (lenBytes : Nat) (bs : Bytes) : DRes :=
   match rdU lenBytes bs with
   | .error e => .error e
@@ -93,11 +109,12 @@ def ownedOnlyTags : List Nat := [115, 80, 101, 102, 103, 114, 121, 82]
 
 mutual
 /-- `parse_term` / `parse_term_borrowed` -/
-def dec (x : Ext) (cfg : DecCfg) : Nat → Bytes → DRes
-  | 0, _ => .error .err
-  | _, [] => .error .err
-  | fuel+1, tagB :: bs =>
+def dec (x : Ext) (cfg : DecCfg) : Nat → Nat → Bytes → DRes
+  | 0, _, _ => .error .err
+  | _, _, [] => .error .err
+  | fuel+1, depth, tagB :: bs =>
     let tag := tagB.toNat
+    if depth > MAX_NESTING_DEPTH then .error .err else
     if cfg.borrowed && ownedOnlyTags.contains tag then .error .err else
     match tag with
     | 97 => match rdU 1 bs with
@@ -116,20 +133,20 @@ def dec (x : Ext) (cfg : DecCfg) : Nat → Bytes → DRes
     | 70 => match rdU 8 bs with
       | .ok (v, r) => .ok (.float v, r)
       | .error e => .error e
-    | 100 => decAtomBody 2 bs
+    | 100 => decLatin1Body 2 bs
     | 118 => decAtomBody 2 bs
     | 119 => decAtomBody 1 bs
-    | 115 => decAtomBody 1 bs
+    | 115 => decLatin1Body 1 bs
     | 104 => match rdU 1 bs with
       | .error e => .error e
-      | .ok (n, r) => match decN x cfg fuel n r with
+      | .ok (n, r) => match decN x cfg fuel (depth + 1) n r with
         | .ok (l, r') => .ok (.tuple l, r')
         | .error e => .error e
     | 105 => match rdU 4 bs with
       | .error e => .error e
       | .ok (n, r) =>
         if n > MAX_TUPLE_SIZE then .error .err else
-        match decN x cfg fuel n r with
+        match decN x cfg fuel (depth + 1) n r with
         | .ok (l, r') => .ok (.tuple l, r')
         | .error e => .error e
     | 106 => .ok (.nil, bs)
@@ -142,9 +159,9 @@ def dec (x : Ext) (cfg : DecCfg) : Nat → Bytes → DRes
       | .error e => .error e
       | .ok (n, r) =>
         if n > MAX_LIST_SIZE then .error .err else
-        match decN x cfg fuel n r with
+        match decN x cfg fuel (depth + 1) n r with
         | .error e => .error e
-        | .ok (l, r') => match dec x cfg fuel r' with
+        | .ok (l, r') => match dec x cfg fuel (depth + 1) r' with
           | .error e => .error e
           | .ok (.nil, r'') => .ok (.list l, r'')
           | .ok (t, r'') => .ok (.ilist l t, r'')
@@ -173,10 +190,10 @@ def dec (x : Ext) (cfg : DecCfg) : Nat → Bytes → DRes
       | .error e => .error e
       | .ok (n, r) =>
         if n > MAX_MAP_SIZE then .error .err else
-        match decKV x cfg fuel n r [] with
+        match decKV x cfg fuel (depth + 1) n r [] with
         | .ok (m, r') => .ok (.map m, r')
         | .error e => .error e
-    | 88 => match dec x cfg fuel bs with
+    | 88 => match dec x cfg fuel (depth + 1) bs with
       | .ok (.atom node, r) => match rdU 4 r with
         | .error e => .error e
         | .ok (id, r1) => match rdU 4 r1 with
@@ -186,7 +203,7 @@ def dec (x : Ext) (cfg : DecCfg) : Nat → Bytes → DRes
             | .ok (creation, r3) => .ok (.pid { node, id, serial, creation }, r3)
       | .ok _ => .error .err
       | .error e => .error e
-    | 103 => match dec x cfg fuel bs with
+    | 103 => match dec x cfg fuel (depth + 1) bs with
       | .ok (.atom node, r) => match rdU 4 r with
         | .error e => .error e
         | .ok (id, r1) => match rdU 4 r1 with
@@ -196,7 +213,7 @@ def dec (x : Ext) (cfg : DecCfg) : Nat → Bytes → DRes
             | .ok (creation, r3) => .ok (.pid { node, id, serial, creation }, r3)
       | .ok _ => .error .err
       | .error e => .error e
-    | 120 => match dec x cfg fuel bs with
+    | 120 => match dec x cfg fuel (depth + 1) bs with
       | .ok (.atom node, r) => match rdU 8 r with
         | .error e => .error e
         | .ok (id, r1) => match rdU 4 r1 with
@@ -204,7 +221,15 @@ def dec (x : Ext) (cfg : DecCfg) : Nat → Bytes → DRes
           | .ok (creation, r2) => .ok (.port node id creation none, r2)
       | .ok _ => .error .err
       | .error e => .error e
-    | 102 => match dec x cfg fuel bs with
+    | 89 => match dec x cfg fuel (depth + 1) bs with
+      | .ok (.atom node, r) => match rdU 4 r with
+        | .error e => .error e
+        | .ok (id, r1) => match rdU 4 r1 with
+          | .error e => .error e
+          | .ok (creation, r2) => .ok (.port node id creation none, r2)
+      | .ok _ => .error .err
+      | .error e => .error e
+    | 102 => match dec x cfg fuel (depth + 1) bs with
       | .ok (.atom node, r) => match rdU 4 r with
         | .error e => .error e
         | .ok (id, r1) => match rdU 1 r1 with
@@ -214,7 +239,7 @@ def dec (x : Ext) (cfg : DecCfg) : Nat → Bytes → DRes
       | .error e => .error e
     | 90 => match rdU 2 bs with
       | .error e => .error e
-      | .ok (len, r0) => match dec x cfg fuel r0 with
+      | .ok (len, r0) => match dec x cfg fuel (depth + 1) r0 with
         | .ok (.atom node, r) => match rdU 4 r with
           | .error e => .error e
           | .ok (creation, r1) => match rdWords len r1 with
@@ -224,7 +249,7 @@ def dec (x : Ext) (cfg : DecCfg) : Nat → Bytes → DRes
         | .error e => .error e
     | 114 => match rdU 2 bs with
       | .error e => .error e
-      | .ok (len, r0) => match dec x cfg fuel r0 with
+      | .ok (len, r0) => match dec x cfg fuel (depth + 1) r0 with
         | .ok (.atom node, r) => match rdU 1 r with
           | .error e => .error e
           | .ok (creation, r1) => match rdWords len r1 with
@@ -232,7 +257,7 @@ def dec (x : Ext) (cfg : DecCfg) : Nat → Bytes → DRes
             | .ok (ids, r2) => .ok (.ref node creation ids none, r2)
         | .ok _ => .error .err
         | .error e => .error e
-    | 101 => match dec x cfg fuel bs with
+    | 101 => match dec x cfg fuel (depth + 1) bs with
       | .ok (.atom node, r) => match rdU 4 r with
         | .error e => .error e
         | .ok (id, r1) => match rdU 1 r1 with
@@ -240,9 +265,9 @@ def dec (x : Ext) (cfg : DecCfg) : Nat → Bytes → DRes
           | .ok (creation, r2) => .ok (.ref node creation [id] none, r2)
       | .ok _ => .error .err
       | .error e => .error e
-    | 113 => match dec x cfg fuel bs with
-      | .ok (.atom m, r) => match dec x cfg fuel r with
-        | .ok (.atom f, r1) => match dec x cfg fuel r1 with
+    | 113 => match dec x cfg fuel (depth + 1) bs with
+      | .ok (.atom m, r) => match dec x cfg fuel (depth + 1) r with
+        | .ok (.atom f, r1) => match dec x cfg fuel (depth + 1) r1 with
           | .ok (.int a, r2) => if 0 ≤ a ∧ a ≤ 255 then .ok (.xfun m f a.toNat, r2) else .error .err
           | .ok _ => .error .err
           | .error e => .error e
@@ -260,11 +285,11 @@ def dec (x : Ext) (cfg : DecCfg) : Nat → Bytes → DRes
             | .error e => .error e
             | .ok (index, r3) => match rdU 4 r3 with
               | .error e => .error e
-              | .ok (numFree, r4) => match dec x cfg fuel r4 with
-                | .ok (.atom m, r5) => match dec x cfg fuel r5 with
-                  | .ok (.int oi, r6) => if oi < 0 then .error .err else match dec x cfg fuel r6 with
-                    | .ok (.int ou, r7) => if ou < 0 then .error .err else match dec x cfg fuel r7 with
-                      | .ok (.pid p, r8) => match decN x cfg fuel numFree r8 with
+              | .ok (numFree, r4) => match dec x cfg fuel (depth + 1) r4 with
+                | .ok (.atom m, r5) => match dec x cfg fuel (depth + 1) r5 with
+                  | .ok (.int oi, r6) => if oi < 0 then .error .err else match dec x cfg fuel (depth + 1) r6 with
+                    | .ok (.int ou, r7) => if ou < 0 then .error .err else match dec x cfg fuel (depth + 1) r7 with
+                      | .ok (.pid p, r8) => match decN x cfg fuel (depth + 1) numFree r8 with
                         | .ok (fr, r9) => .ok (.ifun arity uniq index numFree m oi.toNat ou.toNat p fr, r9)
                         | .error e => .error e
                       | .ok _ => .error .err
@@ -277,7 +302,7 @@ def dec (x : Ext) (cfg : DecCfg) : Nat → Bytes → DRes
                 | .error e => .error e
     | 121 => match rdU 8 bs with
       | .error e => .error e
-      | .ok (_hash, r) => match dec x cfg fuel r with
+      | .ok (_hash, r) => match dec x cfg fuel (depth + 1) r with
         | .error e => .error e
         | .ok (t, r') =>
           let loc := bs.take (8 + (r.length - r'.length))
@@ -292,9 +317,12 @@ def dec (x : Ext) (cfg : DecCfg) : Nat → Bytes → DRes
         if usize > MAX_BINARY_SIZE then .error .err else
         match x.inflate r with
         | none => .error .err
-        | some (out, consumed) => match dec x cfg fuel out with
-          | .error _ => .error .err
-          | .ok (t, _) => .ok (t, r.drop consumed)
+        | some (out, consumed) =>
+          -- at most `usize + 1` bytes are inflated; anything but exactly `usize` is refused
+          if out.length != usize then .error .err else
+          match dec x cfg fuel (depth + 1) out with
+          | .ok (t, []) => if consumed > r.length then .error .panic else .ok (t, r.drop consumed)
+          | _ => .error .err
     | 82 => match rdU 1 bs with
       | .error e => .error e
       | .ok (i, r) => match cfg.cache.lookup i with
@@ -302,25 +330,25 @@ def dec (x : Ext) (cfg : DecCfg) : Nat → Bytes → DRes
         | none => .error .err
     | _ => .error .err
 /-- `n` consecutive terms -/
-def decN (x : Ext) (cfg : DecCfg) : Nat → Nat → Bytes → Except DErr (List Term × Bytes)
-  | _, 0, bs => .ok ([], bs)
-  | 0, _+1, _ => .error .err
-  | fuel+1, n+1, bs =>
-    match dec x cfg fuel bs with
+def decN (x : Ext) (cfg : DecCfg) : Nat → Nat → Nat → Bytes → Except DErr (List Term × Bytes)
+  | _, _, 0, bs => .ok ([], bs)
+  | 0, _, _+1, _ => .error .err
+  | fuel+1, depth, n+1, bs =>
+    match dec x cfg fuel depth bs with
     | .error e => .error e
-    | .ok (t, r) => match decN x cfg fuel n r with
+    | .ok (t, r) => match decN x cfg fuel depth n r with
       | .error e => .error e
       | .ok (ts, r') => .ok (t :: ts, r')
 /-- `n` key/value pairs inserted into the ordered map as they arrive -/
-def decKV (x : Ext) (cfg : DecCfg) : Nat → Nat → Bytes → List (Term × Term) → Except DErr (List (Term × Term) × Bytes)
-  | _, 0, bs, m => .ok (m, bs)
-  | 0, _+1, _, _ => .error .err
-  | fuel+1, n+1, bs, m =>
-    match dec x cfg fuel bs with
+def decKV (x : Ext) (cfg : DecCfg) : Nat → Nat → Nat → Bytes → List (Term × Term) → Except DErr (List (Term × Term) × Bytes)
+  | _, _, 0, bs, m => .ok (m, bs)
+  | 0, _, _+1, _, _ => .error .err
+  | fuel+1, depth, n+1, bs, m =>
+    match dec x cfg fuel depth bs with
     | .error e => .error e
-    | .ok (k, r) => match dec x cfg fuel r with
+    | .ok (k, r) => match dec x cfg fuel depth r with
       | .error e => .error e
-      | .ok (v, r') => decKV x cfg fuel n r' (mapInsert m k v)
+      | .ok (v, r') => decKV x cfg fuel depth n r' (mapInsert m k v)
 end
 
 /-- `erltf::decode` / `erltf::decode_borrowed(..).map(to_owned)` -/
@@ -329,7 +357,7 @@ def decodeWith (x : Ext) (cfg : DecCfg) (bs : Bytes) : Except DErr Term :=
   | [] => .error .err
   | v :: r =>
     if v != 131 then .error .err else
-    match dec x cfg (r.length + 1 + x.extra) r with
+    match dec x cfg (r.length + 1 + x.extra) 0 r with
     | .error e => .error e
     | .ok (t, []) => .ok t
     | .ok (_, rest) => .error (.trailing rest.length)
